@@ -32,7 +32,7 @@ PBatch ==
        /\ trace' = Append(trace, [a |-> "Batch", round |-> key[1], k |-> key[2]])
        /\ UNCHANGED vars
 PExternal == \/ PSimProposal \/ PSimProposal \/ PBatch \/ PBatch
-             \/ (SimTC /\ UNCHANGED have) \/ (SimTimer /\ UNCHANGED have) \/ (SimVote /\ UNCHANGED have)
+             \/ (SimTC /\ UNCHANGED have) \/ (SimTimer /\ UNCHANGED have) \/ (SimVote /\ UNCHANGED have) \/ (SimTimeout /\ UNCHANGED have)
 PSNext == IF PInternalEnabled THEN PInternal /\ UNCHANGED <<trace, have>> ELSE PExternal
 PSSpec == PSInit /\ [][PSNext]_psvars
 \* C08 on the model
